@@ -262,8 +262,6 @@ impl Ctx {
         for k in &feats.kinds {
             self.rep.bump(&format!("has={}", k));
         }
-        let n_catch = model.matches("#1").count();
-        let _ = n_catch;
         let catches = model.split(" | ").filter(|m| tag_in(m, 1000, 1999)).count();
         let finals = model.split(" | ").filter(|m| tag_in(m, 2000, 2999)).count();
         self.rep.bump(&format!("catch_blocks_entered={}", catches.min(5)));
@@ -338,7 +336,20 @@ fn main() {
         .collect();
     let _ = ALLOW.set(allow);
     let mut rep = Report::new("C04", &args);
-    rep.rule = "cases: programs of the C04 mini language (markers, locals, in-place lists, throw, runtime-error primitives, functions, native callbacks, generators, overloaded operators, try/typed catch/finally, return/break/continue) generated from the seed with planted fault points, plus corpus and finding witnesses; distinct = distinct program S-expressions; non-trivial = at least one planted fault point and at least one try".into();
+    rep.rule = "cases: (K/D) programs of the C04 mini language (markers, locals, in-place lists, throw, runtime-error primitives, functions to call depth 5, each/keep/fold/sort callbacks, generators consumed by for, overloaded + < >=, try/typed catch/finally to nesting 3, return/break/continue) generated from the seed with planted fault points and compared with the guide-level evaluator; (K2) programs of the mechanism model's fragment compared with Model/TryMech.lean; plus corpus and finding witnesses. distinct = distinct program S-expressions; non-trivial = at least one planted fault point and at least one try (every K2 program counts)".into();
+    rep.extra.insert(
+        "envelope".into(),
+        json!({
+            "not_generated_shapes": ["F-C04-1: try WITH finally left by return/break/continue/an error escaping a catch block",
+                "F-C04-2: call result assigned directly to an existing local (renderer routes call results through a fresh temporary)",
+                "F-C04-3: wrong-arg-count call inside a try body of the same frame",
+                "F-C04-4: error raised inside an open string interpolation",
+                "F-C04-5: break/continue out of a try body"],
+            "attributed_by_cause_rule": ["F-C04-6: real trace = model trace with errors stringified at for-consumed iterators"],
+            "k2_family": "shapes of F-C04-1 ARE generated in the K2 family: the mechanism model must predict the real runtime there",
+            "other_limits": ["loops never in value position", "strings are atoms (no string operations)", "objects with operators are created in main only", "keep/sort callbacks return Bool/Number by construction", "stack traces appended to messages are stripped before comparison"]
+        }),
+    );
     let open: Vec<String> =
         rep.known_open().iter().filter_map(|e| e.get("id").and_then(|x| x.as_str()).map(|s| s.to_string())).collect();
     let drv = Driver::spawn(&args.driver);
@@ -395,7 +406,7 @@ fn main() {
 
     // ---- 1. generated programs
     let mut rng = Rng::new(args.seed);
-    let n = if args.thorough() { 60000 } else { 4000 };
+    let n = if args.thorough() { 200000 } else { 8000 };
     let mut rejected: std::collections::BTreeMap<String, u64> = Default::default();
     let mut made = 0;
     while made < n {
@@ -412,7 +423,7 @@ fn main() {
         }
     }
     // ---- 2. (K2) mechanism model vs the real runtime
-    let n_mech = if args.thorough() { 20000 } else { 1500 };
+    let n_mech = if args.thorough() { 60000 } else { 2500 };
     let mut rng2 = Rng::new(args.seed ^ 0x5eed_c04);
     for _ in 0..n_mech {
         let mut r = rng2.fork();
@@ -2072,7 +2083,6 @@ enum Role {
 /// Variable layout of every frame: params, then [int a, int b, list, catch1, catch2, loopvar]
 #[derive(Clone, Debug)]
 struct Frame {
-    nparams: u32,
     int_params: Vec<u32>,
     obj_param: Option<u32>,
     ia: u32,
@@ -2096,7 +2106,6 @@ impl Frame {
             _ => ((0..nparams).collect(), None),
         };
         Frame {
-            nparams,
             int_params,
             obj_param,
             ia: base,
